@@ -106,6 +106,12 @@ def answer (l : String) : String :=
     | some s => match RhcTag.parse s with
       | none => "err"
       | some t => if RhcTag.plain true t then "v" else if RhcTag.plain false t then "plain" else "no"
+  | ["rhcshape", s] =>
+    match str s with
+    | none => "bad-op"
+    | some s => match RhcTag.shapeNums s with
+      | none => "no"
+      | some (v, M, m) => s!"{if v then "v" else "plain"} {M} {m}"
   | ["rhccmp", s, t] =>
     match str s, str t with
     | some s, some t => match RhcTag.parse s, RhcTag.parse t with
